@@ -120,6 +120,8 @@ type World struct {
 	seenDir string
 	started bool
 	finSig  chan struct{}
+
+	lastFinish time.Duration
 }
 
 var worldSeq int
@@ -279,6 +281,9 @@ func (w *World) record(dst *[]Msg, it *models.Item) {
 		m.URL = it.GetURL().Raw
 	}
 	w.mu.Lock()
+	if dst == &w.Finished {
+		w.lastFinish = vsched.Cur().Now()
+	}
 	for _, f := range w.Log {
 		if f.End < 0 {
 			m.InFlight = append(m.InFlight, f.URL)
@@ -489,4 +494,17 @@ func (w *World) finishSignal() chan struct{} {
 		w.finSig = make(chan struct{}, 64)
 	}
 	return w.finSig
+}
+
+// WaitIdle parks the calling thread until every other thread is blocked (the
+// pipeline has started and waits for input).
+func (w *World) WaitIdle() {
+	time.Sleep(time.Millisecond)
+}
+
+// LastFinishAt is the virtual time of the last finish message (0 if none).
+func (w *World) LastFinishAt() time.Duration {
+	w.mu.Lock()
+	defer w.mu.Unlock()
+	return w.lastFinish
 }
